@@ -111,7 +111,14 @@ def run_check(prop, tier, seed, nshards=None, replay=None, quiet=False):
     mod = importlib.import_module('mon.checks.' + prop.lower())
     ensure_deps()
     nshards = nshards or getattr(mod, 'SHARDS', {}).get(tier, 16)
+    # the amount of work is set by the checks' case quotas (logical steps); BUDGET is what that work takes on an otherwise idle
+    # 16-core machine, and the wall-clock cut-off handed to the shards is a generous multiple of it, so that a loaded machine
+    # makes a run slower, not INCONCLUSIVE (VERIF_BUDGET_FACTOR, default 4)
     budget = getattr(mod, 'BUDGET', {}).get(tier, 40 if tier == 'quick' else 600)
+    try:
+        budget = budget * float(os.environ.get('VERIF_BUDGET_FACTOR', '4'))
+    except ValueError:
+        budget = budget * 4
     if replay:
         nshards = 1
     scratch = os.path.join(VERIF, '.scratch', '%s-%d' % (prop, os.getpid()))
@@ -129,7 +136,7 @@ def run_check(prop, tier, seed, nshards=None, replay=None, quiet=False):
         procs.append((i, out, log, subprocess.Popen(cmd, cwd=VERIF, env=env, stdout=log, stderr=log)))
     results = []
     failed = []
-    deadline = time.time() + budget * 2.5 + 120
+    deadline = time.time() + budget * 1.5 + 120
     for i, out, log, p in procs:
         try:
             p.wait(timeout=max(1, deadline - time.time()))
